@@ -1211,3 +1211,24 @@ Proof.
   split; [split; [repeat constructor; cbn; lia|cbn; lia]|].
   split; [discriminate|exact ex_parse_sound].
 Qed.
+
+(* ================================================================== *)
+(* Circuit.MarshalFormat (dispatcher): whatever it writes is what the matching plain
+   marshaller writes, hence parses back; any other format string writes nothing *)
+Lemma marshal_format_roundtrip c f bs : MarshalFormat f c = Some bs ->
+  (f = s_mpclc /\ bs = Marshal c /\ (wf_marshal c -> ParseMPCLC bs = Ok (norm c))) \/
+  (f = s_bristol /\ bs = MarshalBristol c /\ (wf_bristol c -> ParseBristol bs = Ok (bristol_norm c))).
+Proof.
+  unfold MarshalFormat. destruct (list_eqb f s_mpclc) eqn:E1.
+  - intros H; inversion H; subst. left. split; [|split; [reflexivity|intros Hw; apply mpclc_roundtrip; exact Hw]].
+    unfold list_eqb in E1. apply andb_true_iff in E1. destruct E1 as [El Ec]. apply Nat.eqb_eq in El.
+    unfold s_mpclc in *. do 6 (destruct f as [|? f]; try discriminate).
+    simpl in Ec. repeat (apply andb_true_iff in Ec; destruct Ec as [?H Ec]).
+    repeat match goal with H : (_ =? _) = true |- _ => apply N.eqb_eq in H; subst end. reflexivity.
+  - destruct (list_eqb f s_bristol) eqn:E2; [|discriminate].
+    intros H; inversion H; subst. right. split; [|split; [reflexivity|intros Hw; apply bristol_roundtrip; exact Hw]].
+    unfold list_eqb in E2. apply andb_true_iff in E2. destruct E2 as [El Ec]. apply Nat.eqb_eq in El.
+    unfold s_bristol in *. do 8 (destruct f as [|? f]; try discriminate).
+    simpl in Ec. repeat (apply andb_true_iff in Ec; destruct Ec as [?H Ec]).
+    repeat match goal with H : (_ =? _) = true |- _ => apply N.eqb_eq in H; subst end. reflexivity.
+Qed.
